@@ -270,18 +270,19 @@ theorem lst_full_iff (d : Decl) (l : Lst) (h : LstInv d l) :
     omega
 
 theorem lst_unique_iff (c : List Val) (i : Int) (x : Val) (h1 : 1 ≤ i) :
-    (∀ j, j < c.length → (j : Int) + 1 ≠ i → c[j]? ≠ some x) ↔
-      ¬ (x ∈ pySliceTo c (i - 1) ++ pySliceFrom c i) := by
+    (∀ j, j < c.length → (j : Int) + 1 ≠ i → (c[j]?).map Val.key ≠ some x.key) ↔
+      ¬ (x.key ∈ pySliceTo (c.map Val.key) (i - 1) ++ pySliceFrom (c.map Val.key) i) := by
   have e : i = (i - 1) + 1 := by omega
   conv => rhs; rw [e]
   have e2 : i - 1 + 1 - 1 = i - 1 := by omega
-  rw [e2, mem_pySlice_others c (by omega : 0 ≤ i - 1)]
+  rw [e2, mem_pySlice_others (c.map Val.key) (by omega : 0 ≤ i - 1)]
   constructor
   · rintro hall ⟨m, hm, hget⟩
-    have hmlt : m < c.length := (List.getElem?_eq_some_iff.mp hget).1
-    exact hall m hmlt (by omega) hget
+    have hmlt : m < (c.map Val.key).length := (List.getElem?_eq_some_iff.mp hget).1
+    rw [List.getElem?_map] at hget
+    exact hall m (by simpa using hmlt) (by omega) hget
   · intro hno j hj hne hget
-    exact hno ⟨j, by omega, hget⟩
+    exact hno ⟨j, by omega, by rw [List.getElem?_map]; exact hget⟩
 
 theorem lst_set_sim (d : Decl) (l : Lst) (h : LstInv d l) (i : Int) (x : Val) :
     step d (.list l.cells) (.set i x) = (.list (l.set i x).1.cells, (l.set i x).2.obs)
@@ -309,7 +310,7 @@ theorem lst_set_sim (d : Decl) (l : Lst) (h : LstInv d l) (i : Int) (x : Val) :
   rw [if_neg h3]
   have h3' : conforms x.ty l.base = true := Classical.not_not.mp (fun hne => h3 ((typeMismatch_iff _ _).mpr hne))
   have huniq := lst_unique_iff l.cells i x h1a
-  by_cases h4 : (l.unique && (pySliceTo l.cells (i - 1) ++ pySliceFrom l.cells i).contains x) = true
+  by_cases h4 : (l.unique && (pySliceTo (l.cells.map Val.key) (i - 1) ++ pySliceFrom (l.cells.map Val.key) i).contains x.key) = true
   · have hn : ¬ listSetAllowed d l.cells i x := by
       intro hh
       simp only [Bool.and_eq_true, List.contains_iff_mem] at h4
@@ -454,7 +455,7 @@ theorem bag_sim (d : Decl) (b : Bag) (h : BagInv d b) (op : Op) :
   | lobound => simp [step, Bag.step, R.obs, h.lo]; exact h
   | unique =>
     have : seqValueUnique (sortL b.cells) = seqValueUnique b.cells := by
-      unfold seqValueUnique; simp [nodup_sortL]
+      unfold seqValueUnique; simp [keyNodup_sortL]
     simp [step, Bag.step, R.obs, listValueUnique_eq, this]; exact h
 
 /-! ### SET -/
@@ -465,34 +466,33 @@ structure SetInv (d : Decl) (s : PSet) : Prop where
   hi : s.hi = d.hi
   base : s.base = d.base
   upper : withinUpper d s.cells.length
-  nodup : s.cells.Nodup
-  typed : ∀ y ∈ s.cells, y.ty = d.base
+  nodup : (s.cells.map Val.key).Nodup        -- no two members python-equal
+  typed : ∀ y ∈ s.cells, conforms y.ty d.base = true
 
 theorem sortL_pySetAdd (c : List Val) (x : Val) : sortL (pySetAdd c x) = setAdd (sortL c) x := by
   unfold pySetAdd setAdd
-  by_cases hm : x ∈ c
-  · have : x ∈ sortL c := (mem_sortL x c).mpr hm
+  by_cases hm : x.key ∈ c.map Val.key
+  · have : x.key ∈ (sortL c).map Val.key := (keyMem_sortL x.key c).mpr hm
     rw [if_pos hm, if_pos this]
-  · have : ¬ x ∈ sortL c := fun hh => hm ((mem_sortL x c).mp hh)
+  · have : ¬ x.key ∈ (sortL c).map Val.key := fun hh => hm ((keyMem_sortL x.key c).mp hh)
     rw [if_neg hm, if_neg this, sortL_append_singleton]
 
-theorem nodup_pySetAdd (c : List Val) (x : Val) (hc : c.Nodup) : (pySetAdd c x).Nodup := by
+theorem nodup_pySetAdd (c : List Val) (x : Val) (hc : (c.map Val.key).Nodup) : ((pySetAdd c x).map Val.key).Nodup := by
   unfold pySetAdd
-  by_cases hm : x ∈ c
+  by_cases hm : x.key ∈ c.map Val.key
   · rw [if_pos hm]; exact hc
-  · rw [if_neg hm]
-    rw [List.nodup_append]
+  · rw [if_neg hm, List.map_append, List.nodup_append]
     refine ⟨hc, by simp, ?_⟩
     intro a ha b hb
-    simp only [List.mem_singleton] at hb
+    simp only [List.map_cons, List.map_nil, List.mem_singleton] at hb
     subst hb
     intro hab; subst hab; exact hm ha
 
 theorem length_pySetAdd_le (c : List Val) (x : Val) : (pySetAdd c x).length ≤ c.length + 1 := by
   unfold pySetAdd; split <;> simp
 
-theorem typed_pySetAdd (c : List Val) (x : Val) (base : Ty) (hc : ∀ y ∈ c, y.ty = base) (hx : x.ty = base) :
-    ∀ y ∈ pySetAdd c x, y.ty = base := by
+theorem typed_pySetAdd (c : List Val) (x : Val) (base : Ty) (hc : ∀ y ∈ c, conforms y.ty base = true)
+    (hx : conforms x.ty base = true) : ∀ y ∈ pySetAdd c x, conforms y.ty base = true := by
   unfold pySetAdd
   intro y hy
   split at hy
@@ -534,17 +534,17 @@ theorem set_add_sim (d : Decl) (s : PSet) (h : SetInv d s) (x : Val) :
     simp only
     by_cases h2 : fullTest setFullGe s.cells.length (setFullAt s.lo bnd) = true
     · rw [if_pos h2]
-      by_cases hm : x ∈ s.cells
+      by_cases hm : x.key ∈ s.cells.map Val.key
       · have hy : setAddAllowed d (sortL s.cells) x :=
-          ⟨by rw [← h.base]; exact h3', Or.inl ((mem_sortL x _).mpr hm)⟩
-        have hnn : ¬ ¬ x ∈ s.cells := fun hh => hh hm
+          ⟨by rw [← h.base]; exact h3', Or.inl ((keyMem_sortL x.key _).mpr hm)⟩
+        have hnn : ¬ ¬ x.key ∈ s.cells.map Val.key := fun hh => hh hm
         rw [if_neg hnn, if_pos hy]
-        have hms : x ∈ sortL s.cells := (mem_sortL x _).mpr hm
-        exact ⟨by simp [setAdd, hms, R.obs], h⟩
+        have hms : x.key ∈ (sortL s.cells).map Val.key := (keyMem_sortL x.key _).mpr hm
+        exact ⟨by simp only [setAdd, hms, if_true, R.obs], h⟩
       · have hn : ¬ setAddAllowed d (sortL s.cells) x := by
           intro hh
           rcases hh.2 with hin | hup
-          · exact hm ((mem_sortL x _).mp hin)
+          · exact hm ((keyMem_sortL x.key _).mp hin)
           · have := (withinUpper_some hds _).mp hup
             rw [length_sortL] at this
             have := hft.mp h2
@@ -746,15 +746,16 @@ theorem run_eq (d : Decl) (s : Agg) (h : Inv d s) (ops : List Op) : run d (abs s
 
 /-! ### uniqueness as an invariant of EXPRESS values under `step` -/
 
-/-- "no duplicate in SET or in a UNIQUE ARRAY/LIST", as a predicate on EXPRESS values -/
+/-- "no duplicate in SET or in a UNIQUE ARRAY/LIST", as a predicate on EXPRESS values; "duplicate" is value equality
+(`Val.key`: `1` and `1.0` are the same value) -/
 def UniqueOK (d : Decl) : Value → Prop
   | .array a => d.unique = true → ∀ hi, d.hi = some hi →
-      ∀ j ∈ indices d.lo hi, ∀ k ∈ indices d.lo hi, j ≠ k → ∀ x, a j = some x → a k ≠ some x
-  | .list l => d.unique = true → l.Nodup
+      ∀ j ∈ indices d.lo hi, ∀ k ∈ indices d.lo hi, j ≠ k → ∀ x : Key, (a j).map Val.key = some x → (a k).map Val.key ≠ some x
+  | .list l => d.unique = true → (l.map Val.key).Nodup
   | .bag _ => True
-  | .set s => s.Nodup
+  | .set s => (s.map Val.key).Nodup
 
-theorem nodup_set_of_absent (l : List Val) (k : Nat) (x : Val) (hl : l.Nodup)
+theorem nodup_set_of_absent {α} [DecidableEq α] (l : List α) (k : Nat) (x : α) (hl : l.Nodup)
     (hx : ∀ j, j < l.length → j ≠ k → l[j]? ≠ some x) : (l.set k x).Nodup := by
   unfold List.Nodup at hl ⊢
   rw [List.pairwise_iff_getElem] at hl ⊢
@@ -795,14 +796,17 @@ theorem uniqueOK_step (d : Decl) (v : Value) (h : UniqueOK d v) (op : Op) : Uniq
           have hal4 := hal.2.2.2 hu
           simp only [arraySet] at hy ⊢
           by_cases hji : j = i
-          · rw [if_pos hji] at hy; cases hy
+          · rw [if_pos hji] at hy
+            simp only [Option.map_some, Option.some.injEq] at hy
+            subst hy
             have hki : ¬ k = i := by omega
             rw [if_neg hki]
             exact hal4 k hk hki
           · rw [if_neg hji] at hy
             by_cases hki : k = i
             · rw [if_pos hki]
-              intro he; cases he
+              simp only [Option.map_some, ne_eq, Option.some.injEq]
+              intro he; subst he
               exact hal4 j hj hji hy
             · rw [if_neg hki]
               exact h hu b hh j hj k hk hjk y hy
@@ -822,21 +826,24 @@ theorem uniqueOK_step (d : Decl) (v : Value) (h : UniqueOK d v) (op : Op) : Uniq
         unfold listSet
         split
         · rename_i hi
-          have hx : x ∉ l := by
+          have hx : x.key ∉ l.map Val.key := by
             intro hm
             rcases List.mem_iff_getElem?.mp hm with ⟨j, hj⟩
-            have hjl : j < l.length := (List.getElem?_eq_some_iff.mp hj).1
-            exact hal5 j hjl (by omega) hj
-          rw [List.nodup_append]
+            have hjl : j < (l.map Val.key).length := (List.getElem?_eq_some_iff.mp hj).1
+            rw [List.getElem?_map] at hj
+            exact hal5 j (by simpa using hjl) (by simp at hjl; omega) hj
+          rw [List.map_append, List.nodup_append]
           refine ⟨hl, by simp, ?_⟩
           intro a ha b hb
-          simp only [List.mem_singleton] at hb
+          simp only [List.map_cons, List.map_nil, List.mem_singleton] at hb
           subst hb
           intro hab; subst hab; exact hx ha
         · rename_i hi
-          apply nodup_set_of_absent l _ x hl
+          rw [List.map_set]
+          apply nodup_set_of_absent (l.map Val.key) _ x.key hl
           intro j hj hne
-          exact hal5 j hj (by have := hal.1; omega)
+          rw [List.getElem?_map]
+          exact hal5 j (by simpa using hj) (by have := hal.1; omega)
       · exact h
     | get i => simp only; split <;> exact h
     | _ => exact h
@@ -853,10 +860,12 @@ theorem uniqueOK_step (d : Decl) (v : Value) (h : UniqueOK d v) (op : Op) : Uniq
         split
         · exact h
         · rename_i hm
-          exact (nodup_insertSorted x s).mpr ⟨hm, h⟩
+          have hp := ((insertSorted_perm x s).map Val.key).nodup_iff
+          show ((insertSorted x s).map Val.key).Nodup
+          rw [hp, List.map_cons, List.nodup_cons]
+          exact ⟨hm, h⟩
       · exact h
     | _ => exact h
-
 
 theorem uniqueOK_after (d : Decl) (s : Agg) (hi : Inv d s) (hu : UniqueOK d (abs s)) (ops : List Op) :
     UniqueOK d (abs (s.after ops)) := by
